@@ -4,6 +4,27 @@ NOTES = ("Technique: machine-checked proof in Lean 4 about a hand-written execut
          "correspondence run on every check (DESIGN.md). fix: commits in /repo are listed in known_findings.json.")
 NOT_APPLICABLE = {}
 CHECKS = {
+    "C04": {
+        "text": ("Lean theorems (unbounded, safety part): the receiver can send FIN / report success only after the end marker and the terminator of every "
+                 "needed id (fin_only_if_complete, any event sequence, i.e. any fault point); convergence holds from every valid prior destination, hence from "
+                 "what an aborted run leaves (resume_converges). Correspondence/fault enumeration: one injected fault per run (n-th Send/RecvMsg on either end, "
+                 "cancellation after k packets, walk error at entry k, read error at offset j, hasher/notify error, SIGKILL after k packets, peer that stops "
+                 "reading with 0..320 requests pending), teardown after a grace period; oracle: both calls return within 3 s, no fsutil goroutine left, "
+                 "success only with a converged destination / a received FIN, a follow-up fault-free transfer converges (C01 spec in Lean)."),
+        "note": ("Trusted: Lean kernel + standard axioms. Termination after teardown (liveness) is decided by fault enumeration on the real code, not by a "
+                 "theorem: the concrete blocking LTS of DESIGN.md §5.7 is not built. 'Bounded time' is wall-clock 3 s after teardown; a read or callback that "
+                 "never returns is outside the statement."),
+        "technique": "Lean 4 safety theorems about the receiver LTS + fault enumeration on the real code with a Lean-evaluated convergence oracle",
+    },
+    "C08": {
+        "text": ("Lean theorems (unbounded): bytes sent for a finished id are the same in any two runs of the sender LTS (sent_bytes_schedule_independent); "
+                 "stored bytes depend only on the per-id payload sequence (stored_bytes_schedule_independent); the change/request/notification set is a function "
+                 "of the two listings (change_set_is_a_function). Correspondence: each transfer is repeated under K seeded schedules (capacity 0..64, delays, "
+                 "read splits, GOMAXPROCS 1..16) with an overlap detector that holds every SendMsg/RecvMsg open; final tree, REQ set, notification set with "
+                 "digests must coincide across schedules and with the Lean model; overlap count must be 0."),
+        "note": ("Trusted: Lean kernel + standard axioms. 'No data race' is a statement about the Go memory model that no pure model exhibits: NOT decided here "
+                 "(the overlap detector decides only 'no two stream calls in flight'). Schedules are those the seeded gates produce."),
+    },
     "C03": {
         "text": ("Lean theorems (unbounded): a path passing the repaired lexical test consists of plain components only, so it names a strict descendant of "
                  "dest (accepted_path_is_plain); an admitted hard link names an earlier admitted plain file (link_source_was_sent); validator theorems of C12. "
